@@ -7,6 +7,13 @@ COMMON_ASSUMPTIONS = [
     'arguments and observations without interpreting them; verdicts are taken by TLC only',
 ]
 
+import vf
+
+
+def g09_events(s):
+    return ([{'op': 'date.set', 'max': 0}, {'op': 'date.parse', 'in': s, 'rule': 0, 'T': 's'}], None)
+
+
 PLANS = {
     'C01': {
         'mc': [{'module': 'MC_C01', 'what': '18 boundary years x every day x {ext,basic} x 8 limits: Parse(Fmt(d)) = d, canonical shape, Ordinal counts days'}],
@@ -16,6 +23,41 @@ PLANS = {
         'rule': 'one date.rt event per date: 10 output paths and 10 input-path results judged by TLC against FmtDate/ParseDateRef; '
                 'quick = all days of 60 boundary years + 4-16 days of every year 0000-9999 + 5-9 digit years under 6 limits; '
                 'thorough = every day of 0000-9999 as a day-consecutive chain (H.chain demand) + long years',
+        'assumptions': COMMON_ASSUMPTIONS,
+    },
+    'C09': {
+        'mc': [],
+        'legs': [vf.graph_leg('g09', 'Graph_C09', {'quick': {'GRAPH_MAXLEN': '8'}, 'thorough': {'GRAPH_MAXLEN': '9'}}, g09_events,
+                              'every string over {0,1,2,3,9,-} up to length 8 (thorough 9) + extensions of "20" to length 10: '
+                              'accepted <=> in DateLang with a real day, value = written components; MC_C09 checks the laws of the spec on the same domain',
+                              mc_module='MC_C09')],
+        'drivers': [{'name': 'c09', 'shards': 8}],
+        'codes': ['C09.'],
+        'exhaustive': {'quick': True, 'thorough': True},
+        'rule': 'graph: complete enumeration by TLC, looked up in the recorded graph of DefaultParser[string]; '
+                'events: years x MM x DD grids in 4 separator layouts, all 256 byte values at every position of valid texts, '
+                'insertions/deletions/truncations, rule x MaxInputLength x {string,[]byte} sweeps',
+        'assumptions': COMMON_ASSUMPTIONS,
+    },
+    'C11': {
+        'mc': [{'module': 'MC_C11', 'what': 'all 65536 (month,day) bytes x 6 years x versions x lengths: decode is strict; Decode(Encode(d)) = d'}],
+        'drivers': [{'name': 'c11', 'shards': 8}],
+        'codes': ['C11.'],
+        'rule': 'date.bin events (layout + round trip) and date.unbin events (receiver pre/post state) judged by TLC against BinEncode/BinDecodeRef',
+        'assumptions': COMMON_ASSUMPTIONS,
+    },
+    'C07': {
+        'mc': [{'module': 'MC_C07', 'what': 'order laws, Ordinal monotone, Normalize idempotent on boundary years'}],
+        'drivers': [{'name': 'c07', 'shards': 8, 'tiers': {'thorough': {'shards': 16}}}],
+        'codes': ['C07.'],
+        'rule': 'date.cmp / add / adddur / time / fromtime events judged by TLC against Calendar (Lt, Ord, AddYMD, Civil)',
+        'assumptions': COMMON_ASSUMPTIONS,
+    },
+    'C15': {
+        'mc': [{'module': 'MC_C15', 'what': 'filter state machine: build, mutate caller variables, probe; inclusive-interval invariant'}],
+        'drivers': [{'name': 'c15', 'shards': 8}],
+        'codes': ['C15.'],
+        'rule': 'histories freset/vars/fbuild/vars/fcontains* replayed against the Date state machine (filters capture bounds at build time)',
         'assumptions': COMMON_ASSUMPTIONS,
     },
 }
